@@ -746,6 +746,13 @@ func (c *Config) mutualVersion(vers uint16) (uint16, bool) {
 	if vers > maxVersion {
 		vers = maxVersion
 	}
+	switch vers {
+	case VersionGMSSL, VersionSSL30, VersionTLS10, VersionTLS11, VersionTLS12:
+	default:
+		// minVersion is the GMSSL number 0x0101, so numbers between it and
+		// SSL 3.0 pass the range check although no such protocol exists
+		return 0, false
+	}
 	return vers, true
 }
 
